@@ -871,12 +871,89 @@ def np_where(ex, st, args, kwargs):
         c, a, b = args
         return L.elementwise(lambda cc, x, y: V.ite(cc, x, y), c, a, b,
                              kind=L.join_kind(L.as_arr(a).kind, L.as_arr(b).kind))
-    c = L.as_arr(args[0])
+    c = args[0] if isinstance(args[0], SArr) else L.as_arr(args[0])
+    if c.kind != "b":
+        c = L.elementwise(lambda v: v if V.is_bool(v) else V.ne(v, 0), c, kind="b")
     vals = [V.conc(x) if not isinstance(x, bool) else x for x in c.flat()]
     if any(not isinstance(v, bool) for v in vals):
-        raise Unsupported("np.where with a symbolic condition (symbolic result shape)")
+        raise NeedConcreteMask(c)   # the executor forks over the entries (result shape depends on them)
     res = _np.where(_np.array(vals, dtype=bool).reshape(c.shape))
     return tuple(L.mk([int(i) for i in r], (len(r),), "i") for r in res)
+
+
+def np_nonzero(ex, st, args, kwargs):
+    return np_where(ex, st, [args[0]], {})
+
+
+def np_flatnonzero(ex, st, args, kwargs):
+    a = L.as_arr(args[0])
+    return np_where(ex, st, [SArr(a.a.reshape(-1), a.kind)], {})[0]
+
+
+def np_argwhere(ex, st, args, kwargs):
+    r = np_where(ex, st, [args[0]], {})
+    return L.stack(list(r), axis=1) if r and r[0].shape[0] else L.mk([], (0, len(r)), "i")
+
+
+def np_std(ex, st, args, kwargs):
+    v = L.np_var(args[0], _axis(args, kwargs), ddof=kwargs.get("ddof", 0))
+    return L.map_scalar_or_arr(L.sqrt_scalar, v)
+
+
+def np_floor(ex, st, args, kwargs):
+    return L.map_scalar_or_arr(lambda x: V.neg(L.ceil_scalar(V.neg(x))), args[0], kind="f")
+
+
+def np_isfinite(ex, st, args, kwargs):
+    L.used("A-FP: reals carry no NaN / inf (isnan, isinf False; isfinite True)")
+    a = L.as_arr(args[0])
+    return L.mk([True] * a.size, a.shape, "b") if a.ndim else True
+
+
+def np_isnan(ex, st, args, kwargs):
+    L.used("A-FP: reals carry no NaN / inf (isnan, isinf False; isfinite True)")
+    a = L.as_arr(args[0])
+    if any(type(v).__name__ == "NanReal" for v in a.flat()):
+        raise Unsupported("isnan / isinf on an IEEE-modelled quotient")
+    return L.mk([False] * a.size, a.shape, "b") if a.ndim else False
+
+
+def np_inner(ex, st, args, kwargs):
+    a, b = L.as_arr(args[0]), L.as_arr(args[1])
+    if a.ndim == 1 and b.ndim == 1:
+        return L.matmul(a, b)
+    raise Unsupported("inner of non-vectors")
+
+
+def np_ptp(ex, st, args, kwargs):
+    ax = _axis(args, kwargs)
+    return L.binop("sub", L.np_max(args[0], ax), L.np_min(args[0], ax))
+
+
+def np_cross(ex, st, args, kwargs):
+    a, b = L.as_arr(args[0]), L.as_arr(args[1])
+    if a.shape != (3,) or b.shape != (3,):
+        raise Unsupported("cross of non-3-vectors")
+    x, y = a.flat(), b.flat()
+    f = lambda i, j: V.sub(V.mul(x[i], y[j]), V.mul(x[j], y[i]))
+    return L.mk([f(1, 2), f(2, 0), f(0, 1)], (3,), "f")
+
+
+def np_tri(upper):
+    def f(ex, st, args, kwargs):
+        a = L.as_arr(args[0])
+        k = kwargs.get("k", args[1] if len(args) > 1 else 0)
+        if a.ndim != 2 or not isinstance(k, int):
+            raise Unsupported("triu/tril")
+        out = a.a.copy()
+        zero = Fraction(0) if a.kind == "f" else (False if a.kind == "b" else 0)
+        for i in range(a.shape[0]):
+            for j in range(a.shape[1]):
+                keep = (j - i >= k) if upper else (j - i <= k)
+                if not keep:
+                    out[i, j] = zero
+        return SArr(out, a.kind)
+    return f
 
 
 def np_delete(ex, st, args, kwargs):
@@ -1257,6 +1334,22 @@ def t_unique_consecutive(ex, st, args, kwargs):
     return (ua, ca) if kwargs.get("return_counts") else ua
 
 
+def _t_wrap(fn):
+    return lambda ex, st, args, kwargs: _torchify(L.as_arr(fn(ex, st, args, {k: v for k, v in kwargs.items() if k not in ("dtype", "device")})))
+
+
+for _tn, _fn in (("torch.zeros", lambda ex, st, a, k: np_zeros(ex, st, [a[0] if len(a) == 1 else tuple(a)], k)),
+                 ("torch.ones", lambda ex, st, a, k: np_ones(ex, st, [a[0] if len(a) == 1 else tuple(a)], k)),
+                 ("torch.vstack", lambda ex, st, a, k: np_vstack(ex, st, a, k)), ("torch.hstack", lambda ex, st, a, k: np_hstack(ex, st, a, k)),
+                 ("torch.concat", lambda ex, st, a, k: t_cat(ex, st, a, k)), ("torch.concatenate", lambda ex, st, a, k: t_cat(ex, st, a, k)),
+                 ("torch.as_tensor", lambda ex, st, a, k: L.as_arr(a[0])), ("torch.from_numpy", lambda ex, st, a, k: L.as_arr(a[0])),
+                 ("torch.diagonal", lambda ex, st, a, k: np_diagonal(ex, st, [a[0]], {"axis1": k.get("dim1", 0), "axis2": k.get("dim2", 1)})),
+                 ("torch.arange", lambda ex, st, a, k: np_arange(ex, st, a, k)), ("torch.sqrt", lambda ex, st, a, k: np_sqrt(ex, st, a, k)),
+                 ("torch.sum", lambda ex, st, a, k: L.np_sum(a[0], k.get("dim", a[1] if len(a) > 1 else None))),
+                 ("torch.transpose", lambda ex, st, a, k: L.as_arr(a[0]).view(_np.swapaxes(L.as_arr(a[0]).a, a[1], a[2]))),
+                 ("torch.squeeze", lambda ex, st, a, k: np_squeeze(ex, st, a, ({"axis": k["dim"]} if "dim" in k else {}))),
+                 ("torch.unsqueeze", lambda ex, st, a, k: L.as_arr(a[0]).view(_np.expand_dims(L.as_arr(a[0]).a, a[1] if len(a) > 1 else k["dim"])))):
+    NP[_tn] = _t_wrap(_fn)
 NP["torch.argsort"] = t_argsort
 NP["torch.unique_consecutive"] = t_unique_consecutive
 NP.update({"torch.tensor": t_tensor, "torch.cat": t_cat, "torch.stack": t_stack, "torch.empty": t_empty,
@@ -1403,6 +1496,12 @@ def t_diag_embed(ex, st, args, kwargs):
     return _torchify(SArr(out, a.kind))
 
 
+NP.update({"numpy.nonzero": np_nonzero, "numpy.flatnonzero": np_flatnonzero, "numpy.argwhere": np_argwhere, "numpy.std": np_std,
+           "numpy.floor": np_floor, "numpy.isfinite": np_isfinite, "numpy.isnan": np_isnan, "numpy.isinf": np_isnan, "numpy.inner": np_inner,
+           "numpy.vdot": np_inner, "numpy.ptp": np_ptp, "numpy.cross": np_cross, "numpy.triu": np_tri(True), "numpy.tril": np_tri(False),
+           "numpy.nanmin": np_min, "numpy.nanmax": np_max, "numpy.nansum": lambda ex, st, a, k: L.np_sum(a[0], _axis(a, k)),
+           "numpy.reciprocal": lambda ex, st, a, k: L.binop("div", Fraction(1), a[0]),
+           "numpy.average": lambda ex, st, a, k: (np_mean(ex, st, a, k) if "weights" not in k and len(a) < 3 else (_ for _ in ()).throw(Unsupported("weighted average")))})
 NP["numpy.putmask"] = np_putmask
 NP["torch.diag_embed"] = t_diag_embed
 NP["numpy.asanyarray"] = np_asarray
@@ -1547,8 +1646,43 @@ def arr_method(ex, st, a, name, args, kwargs):
         return np_cumsum(ex, st, [a] + list(args), kwargs)
     if name == "swapaxes":
         return a.view(_np.swapaxes(a.a, args[0], args[1]))
-    if name == "to":
+    if name in ("to", "detach", "cpu", "double", "float", "contiguous", "requires_grad_"):
         return a
+    if name == "clone":
+        r = L.copy(a)
+        r.origin = a.origin
+        return r
+    if name == "unsqueeze":
+        d = args[0] if args else kwargs.get("dim")
+        return a.view(_np.expand_dims(a.a, d))
+    if name in ("view", "expand_as"):
+        if name == "view":
+            shp = args[0] if len(args) == 1 and isinstance(args[0], (tuple, list)) else args
+            return _reshape(a, shp)
+        raise Unsupported("tensor method " + name)
+    if name == "permute":
+        axes = args[0] if len(args) == 1 and isinstance(args[0], (tuple, list)) else args
+        return a.view(_np.transpose(a.a, axes))
+    if name == "t":
+        return a.view(a.a.T)
+    if name == "std":
+        return np_std(ex, st, [a] + list(args), kwargs)
+    if name == "trace":
+        return np_trace(ex, st, [a] + list(args), kwargs)
+    if name == "nonzero":
+        return np_nonzero(ex, st, [a], {})
+    if name == "sort":
+        if args or kwargs:
+            raise Unsupported("sort with options")
+        srt = np_sort(ex, st, [a], {})
+        for i, v in enumerate(srt.flat()):
+            a.a[i] = v
+        st.log.append(("arr", id(a)))
+        return None
+    if name == "argsort":
+        return np_argsort(ex, st, [a] + list(args), kwargs)
+    if name == "round":
+        raise Unsupported("ndarray.round")
     if name == "numpy":
         return SArr(a.a, a.kind, None)
     if name == "dim":
